@@ -6,8 +6,10 @@ import LanceModel.C07.MonoLemmas
 C07 — "After restoring version v, the new latest version has exactly v's schema, rows, deletions and indices.  Stable
 row ids handed out after a restore are never ones that some earlier version already used."
 
-Quantifier: histories = every list of create / append / overwrite / delete / restore operations from "no table"
-(`run ops`), with stable row ids on or off (`Hist.stable`).  The model is the code as it is now (fix 0b56cc4 in the
+Quantifier: histories = every list of create / append / overwrite / delete / restore / restore-through-a-stale-handle
+(`restoreAt hv v`: the Restore transaction read version `hv` and commits on whatever is latest by then) operations from
+"no table" (`run ops`), with stable row ids on or off (`Hist.stable`).  Every theorem below that quantifies over `ops`
+covers histories with stale-handle restores.  The model is the code as it is now (fix 0b56cc4 in the
 Restore arm); `runG false` is the pinned commit and is refuted by `rowids_fresh_pinned_counterexample`.
 Indices are not modelled (level_note).
 -/
@@ -27,6 +29,24 @@ theorem restore_rows (h : Hist) (v : Nat) (old : Manifest) (hl : h.lookup v = so
       fragInfo h'.latest = fragInfo old := by
   refine ⟨h.push (restored true h.latest old), ?_, rfl, rfl, rfl, rfl, rfl, rfl, rfl, rfl⟩
   simp [step, stepG, hl]
+
+/-- The same for a Restore transaction that was built on a stale handle (read version `hv` ≤ latest) and commits after
+    other writers published newer versions: it still publishes latest + 1 with exactly v's schema / fragments / rows,
+    and its `next_row_id` / `max_fragment_id` are at least those of the LATEST manifest at commit time (not merely of the
+    manifest the transaction had read). -/
+theorem restore_at_rows (h : Hist) (hv v : Nat) (hm old : Manifest) (hh : h.lookup hv = some hm)
+    (hl : h.lookup v = some old) :
+    ∃ h', step (some h) (.restoreAt hv v) = (some h', .ok) ∧
+      h'.latest.version = h.latest.version + 1 ∧ h'.older = h.versions ∧ h'.stable = h.stable ∧
+      h'.latest.k = old.k ∧ h'.latest.frags = old.frags ∧
+      liveCells h'.latest = liveCells old ∧ scan h'.stable h'.latest = scan h.stable old ∧
+      fragInfo h'.latest = fragInfo old ∧
+      h.latest.nextRowId ≤ h'.latest.nextRowId ∧
+      (∀ i, fragBound h.latest.maxFragId i → fragBound h'.latest.maxFragId i) := by
+  refine ⟨h.push (restored true h.latest old), ?_, rfl, rfl, rfl, rfl, rfl, rfl, rfl, rfl, ?_, ?_⟩
+  · simp [step, stepG, hh, hl]
+  · simp only [Hist.push, restored, if_true]; omega
+  · intro i hb; simp only [Hist.push, restored, if_true]; exact optMax_right hb
 
 /-- a version that was never published cannot be restored; the table is untouched -/
 theorem restore_missing (h : Hist) (v : Nat) (hl : h.lookup v = none) :
@@ -196,6 +216,35 @@ theorem fragids_pinned_counterexample :
       (∃ m ∈ h.older, ∃ f ∈ m.frags, ∃ g ∈ h.latest.frags, f.id = g.id ∧ f.rows ≠ g.rows) := by
   refine ⟨_, rfl, ?_⟩
   decide
+
+/-! ### the marks must come from the latest manifest at commit time, not from the transaction's read version -/
+
+/-- create 3 rows, append 3 (v2), [handle at v2 prepares `restore 1`], append 3 (v3), the restore commits (v4), append 2 -/
+def staleWitness : List Op :=
+  [.create true 1000 1 [[some 10], [some 11], [some 12]],
+   .append 1000 [[some 20], [some 21], [some 22]],
+   .append 1000 [[some 30], [some 31], [some 32]],
+   .restoreAt 2 1,
+   .append 1000 [[some 40], [some 41]]]
+
+/-- a commit loop that takes the restore's marks from the manifest at its read version (v2: next_row_id 6) instead of
+    the latest one (v3: next_row_id 9) hands out row ids 6, 7 again, which version 3 used for rows 30, 31 -/
+theorem stale_marks_counterexample :
+    ∃ h, runStaleMarks none staleWitness = some h ∧ h.stable = true ∧ ¬ Functional (histIds h) := by
+  refine ⟨_, rfl, rfl, ?_⟩
+  decide
+
+/-- … while under the code as modelled the same history keeps every identity unique and the restored version carries
+    the latest marks -/
+example : ∃ h, run staleWitness = some h ∧ h.stable = true ∧ h.latest.version = 5 ∧ h.latest.nextRowId = 11 ∧
+    h.latest.maxFragId = some 3 ∧ Functional (histIds h) := by
+  refine ⟨_, rfl, rfl, rfl, rfl, rfl, ?_⟩
+  decide
+
+/-- `restore_at_rows` has instances with a genuinely stale handle (read version 2, latest 3) -/
+example : ∃ h hm old, run (staleWitness.take 3) = some h ∧ h.latest.version = 3 ∧ h.lookup 2 = some hm ∧
+    h.lookup 1 = some old ∧ hm.nextRowId < h.latest.nextRowId :=
+  ⟨_, _, _, rfl, rfl, rfl, rfl, by decide⟩
 
 /-! ## non-vacuity -/
 
